@@ -5,6 +5,7 @@
 #include "config.h"
 #include "common/util.h"
 #include "common/sched.h"
+#include "common/futex_interpose.h"
 
 #include <algorithm>
 #include <chrono>
@@ -98,7 +99,9 @@ std::string run_case(const std::string& line) {
   chunks->slot_free_diskspace() = [](auto&) { return uint64_t(0); };
   chunks->slot_storage_error()  = [](const std::string&) {};
   chunks->set_chunk_size(1 << 16);
-  chunks->resize(16);
+  uint32_t nchunks = 16;   // more for the deep-queue cases (> 64 pieces pending at once)
+  for (auto& pr : progs) for (auto& c : pr) if (c.kind == 'P' && uint32_t(c.a) + 1 > nchunks) nchunks = c.a + 1;
+  chunks->resize(nchunks);
   auto* hq = new torrent::HashQueue;
   disk->hash_check_queue()->slot_chunk_done() = [hq](auto hc, const auto& hv) { hq->chunk_done(hc, hv); };
 
@@ -116,8 +119,16 @@ std::string run_case(const std::string& line) {
 
   std::string out = "S";
   std::string fin;
+  SchedWatchdog wd(20000, [] {
+    std::cout << "ERR:hang case did not complete within 20 s (a thread is blocked outside the scheduler's control)" << std::endl;
+    _exit(3);
+  });
   {
     Controller ctrl;
+    // a controlled thread that really blocks in atomic<bool>::wait (m_has_done_chunks) is parked as blocked, visible as
+    // "not enabled", until a controlled thread really notifies it; at case end the flag is raised so the wait returns
+    ctrl.futex_emulation = getenv("LTV_NO_FUTEX_EMU") == nullptr;   // the switch exists to exercise the hang watchdog path
+    ctrl.before_abort    = [hq] { hq->m_has_done_chunks.store(true); };
     // chunk_done takes m_done_chunks_lock at a plain schedule point: it is enabled only when the lock is free
     ctrl.extra_enabled = [hq](int, const char* label) {
       if (std::strcmp(label, "hq_publish_lock") != 0) return true;
@@ -193,7 +204,7 @@ std::string run_case(const std::string& line) {
   // blocking mapping references held at the end (ChunkListNode::blocking summed over the chunk list): compared
   // with the model (= number of pending nodes; the reference is released in the notification)
   int refs = 0;
-  for (uint32_t i = 0; i < 16; i++) refs += (*chunks)[i].blocking();
+  for (uint32_t i = 0; i < nchunks; i++) refs += (*chunks)[i].blocking();
   out += " B " + std::to_string(refs);
   // tear down what can be torn down safely; the queue / chunk list objects of an unfinished case are leaked
   torrent::ThreadDisk::destroy_thread();
